@@ -313,9 +313,26 @@ def rule_C(run, prog):
 
 
 def _branch(f, atype):
+    """statements executed for one axis type: the body of its branch followed by whatever follows the
+    if-chain on the way out of the function (assignments common to all types may be hoisted there)"""
+    from ..loader import parents_map
+    pm = parents_map(f.node)
     for n in walk_no_nested(f.node):
         if isinstance(n, ast.If) and norm(n.test) == "self.atype == '%s'" % atype:
-            return n.body
+            body = list(n.body)
+            node = n
+            # climb out of the elif chain and the enclosing blocks, collecting trailing statements
+            while node is not f.node and node is not None:
+                par = pm.get(node)
+                if par is None:
+                    break
+                for fld in ("body", "orelse", "finalbody"):
+                    blk = getattr(par, fld, None)
+                    if isinstance(blk, list) and node in blk:
+                        if not (isinstance(par, ast.If) and fld == "orelse"):
+                            body += [s_ for s_ in blk[blk.index(node) + 1:] if not isinstance(s_, ast.Return)]
+                node = par
+            return body
     raise AnalysisError("%s: branch for %s not found" % (f.short, atype))
 
 
@@ -367,6 +384,16 @@ def rule_D(run, prog):
              for n in walk_no_nested(tf.node))
     run.obligation(rid, "TimeAxis.get_FrequencyAxis", ok, key="internal-units",
                    message="the conjugate axis must be created under internal units", loc=tf.loc())
+    # the frequency axis is units managed: everything read from it must be read under internal units
+    from .. import unitflow
+    for fn, nprot, outside in unitflow.unprotected_managed_reads(prog, prog.cls("quantarhei.core.frequency.FrequencyAxis")):
+        run.obligation(rid, fn.short, not outside, key="internal-units-reads",
+                       message="%s reads the units-managed %s outside its energy_units('int') block: the derived axis "
+                               "then depends on the units current for the caller and does not map back"
+                               % (fn.short, sorted({"self." + x.attr for x in outside})),
+                       loc=fn.loc(outside[0]) if outside else fn.loc(), sample={"protected_reads": nprot})
+    if any(x.rule == rid and x.key == "internal-units-reads" for x in run.findings):
+        return      # the symbolic round trip below assumes internal units throughout
     pi2 = Expr.const(2) * S("pi")
     for atype in ("complete", "upper-half"):
         # ---- time -> frequency -> time
